@@ -180,7 +180,15 @@ func GenOp(t *rapid.T, r *Runner, pool *KeyPool, p *GenProfile) Op {
 			if Pct(t, 65, "rput") {
 				w = Op{K: "put", Key: key, VLen: rapid.IntRange(0, 300).Draw(t, "rlen"), VSeed: r.NextSeed()}
 			}
-			op.Race = append(op.Race, RaceOp{At: U(t, 10, "at"), Op: w})
+			at := U(t, 10, "at")
+			if Pct(t, 35, "atrotated") {
+				// between the merge rotation and the start of the scan; sized to make the active file rotate again
+				at = -1
+				if w.K == "put" {
+					w.VLen = ValueLen(t, r, len(key), 0, false)
+				}
+			}
+			op.Race = append(op.Race, RaceOp{At: at, Op: w})
 		}
 		return op
 	}
